@@ -145,6 +145,11 @@ def r2_escape_set(chk, prog):
         ok = ok and bool(ret) and all(o.kind == "call" and o.key[0] == bb for o in ret)
     chk.require(ok, "R2", ctx.fn, "applies-the-escape-set",
                 "encode_filename is not exactly utf8_percent_encode(name, &CHARACTERS_TO_ESCAPE).to_string()")
+    allowed = ("core::convert::AsRef::as_ref", "percent_encoding::utf8_percent_encode", "alloc::string::ToString::to_string")
+    extra = sorted(set(t.callee for bb, t in ctx.body.calls() if not t.is_call_to(*allowed)))
+    chk.require(not extra, "R2", ctx.fn, "nothing-but-encoding",
+                "encode_filename does more than percent-encode its input (%s): any shortening, trimming or case folding "
+                "of the encoded name makes two role names share one file name" % extra[:4])
 
 
 def r3_no_decoding(chk, prog):
